@@ -53,6 +53,11 @@ def operator_workload(api, M, S, O, ctx):
     # very few evaluation points (fewer points than threads): work is then split differently, the values must not know
     W.append(("laplace.pot.DL[p1] 1 point", lambda: np.asarray(O.potential(api, "laplace", "double_layer", p1, pts[:, :1], parameters=par).evaluate(c_p1))))
     W.append(("laplace.pot.DL[p1] 3 points", lambda: np.asarray(O.potential(api, "laplace", "double_layer", p1, pts[:, 1:4], parameters=par).evaluate(c_p1))))
+    # an operator between two DIFFERENT grids (off-diagonal block of a two-body problem)
+    mscr2 = M.distort(M.screen(4), rng)
+    mscr2.V = mscr2.V + np.array([[0.4], [-0.2], [2.3]])
+    p1scr = api.function_space(M.to_grid(mscr2), "P", 1, include_boundary_dofs=True)
+    W.append(("laplace.K[p1,p1@screen] two grids", lambda: O.dense(O.boundary(api, "laplace", "double_layer", p1, p1scr, p1scr, parameters=par))))
     W.append(("sparse.M[p1,dp0]", lambda: O.dense(O.boundary(api, "sparse", "identity", p1, p1, dp0, parameters=par))))
     if not ctx.quick:
         p1s = api.function_space(scr, "P", 1, include_boundary_dofs=True)
